@@ -514,6 +514,36 @@ impl Real {
         ctx.case(kind, true, line.trim_end(), &format!("batch={s} each={each_s}"));
     }
 
+    /// The multi-opening challenge x₃ of an honest member: the scalar of the `π` term on the right
+    /// side of its guard (`… + x₃·π − v·G`).
+    fn x3_of(&mut self, ctx: &mut Ctx, m: &Mem) -> Option<F> {
+        let c = self.classify(ctx, m);
+        let g = c.guard?;
+        let (_, right) = g.split();
+        right.iter().find_map(|(l, s, _)| match l {
+            midnight_proofs::poly::CommitmentLabel::Custom(n) if n == "π" => Some(**s),
+            _ => None,
+        })
+    }
+
+    /// Coordinated alteration of TWO DIFFERENT honest proofs: `π₁ + (τ − x₃⁽²⁾)·G` and
+    /// `π₂ − (τ − x₃⁽¹⁾)·G` (points computable from the proofs and `[τ]G` of the public SRS).
+    /// The defects are `±(τ − x₃⁽¹⁾)(τ − x₃⁽²⁾)·G`: opposite, so the pair passes iff the two
+    /// positions get the same combination coefficient.
+    pub fn cross_pair(&mut self, ctx: &mut Ctx, m1: &Mem, m2: &Mem) -> Option<(Mem, Mem)> {
+        let (x1, x2) = (self.x3_of(ctx, m1)?, self.x3_of(ctx, m2)?);
+        let mut fam = b"cross-pair".to_vec();
+        fam.extend(Self::key(m1));
+        fam.extend(Self::key(m2));
+        let mut a = self.shifted(m1, self.tau - x2);
+        let mut b = self.shifted(m2, -(self.tau - x1));
+        a.shift = Some((fam.clone(), F::ONE));
+        b.shift = Some((fam, -F::ONE));
+        a.desc = format!("{}~pi+(tau-x3[{}])G", m1.desc, m2.desc);
+        b.desc = format!("{}~pi-(tau-x3[{}])G", m2.desc, m1.desc);
+        Some((a, b))
+    }
+
     /// The batching challenge `batch_verify` draws on this batch (recording hash), if it gets
     /// that far.
     pub fn learn_r(&self, ms: &[Mem]) -> Option<F> {
